@@ -22,6 +22,9 @@ pub fn main(args: &[String]) -> i32 {
     let nthreads = o.num("threads", 16) as usize;
     let rounds = o.num("rounds", 20) as usize;
     let parity = o.num("second-parity", 1) as usize % 2;
+    // 0: all threads race for the first use; 1 / 2: one thread of the first / second table makes the very first parse of the
+    // process alone, then the race starts (an order-dependent global shows deterministically instead of by luck)
+    let first_table = o.num("first-table", 0) as usize;
     // configuration: {"table": ..., "texts": [cps...], "ftexts": ["x*2+sin(y)", ...]}  (no exmex call before the threads start)
     let mut input = String::new();
     std::io::stdin().read_to_string(&mut input).unwrap();
@@ -40,9 +43,14 @@ pub fn main(args: &[String]) -> i32 {
         let second = tid % 2 == parity;
         let (table, texts, ftexts, barrier) = (if second { table2.clone() } else { table.clone() }, if second { texts2.clone() } else { texts.clone() }, ftexts.clone(), barrier.clone());
         let table_json = if second { cfg["table2"].clone() } else { cfg["table"].clone() };
+        let leader = first_table != 0 && second == (first_table == 2) && tid < 2;
         handles.push(std::thread::spawn(move || {
             dynops::set_table(table);
             let mut ev = vec![];
+            if leader {
+                let text: &'static str = Box::leak(texts[0].clone().into_boxed_str());
+                let _ = crate::util::guarded(|| crate::expr::run_entry("flat", text));
+            }
             barrier.wait();
             let mut seq = 0;
             for r in 0..2 {
